@@ -9,6 +9,7 @@ def seg(v, min_len, max_len, max_sil, strict=False, drop=False):
     n = len(v)
     out = []
     pos = 0
+    max_sil = max(max_sil, 0)  # "no run of more than max_sil invalid frames" with max_sil < 0 tolerates none, like 0
     while pos < n:
         # next valid frame outside the previous extended stretch
         i = pos
